@@ -45,11 +45,18 @@ Theorem cv_ptr_or_fn_decodes : forall ls acc core rest,
      (DOk (wrap acc (mainl ls), P (traill ls) core ++ rest)).
 Proof. intros ls. exact (cvptr_P (length ls) ls (le_n _)). Qed.
 
+(* the type-id of an alias-declaration (abstract declarator, array suffix included) *)
+Theorem alias_decodes : forall t rest,
+  wf t -> kind_of t <> KFn -> follow_ok rest = true ->
+  ev (fun f => alias_type f (decl_toks t None ++ rest)) (DOk (t, rest)).
+Proof. exact alias_roundtrip. Qed.
+
 (* the code the model mirrors is the pinned one, and the token sets it tests
    the stream for are the sets the model hard-codes (regenerated on every run) *)
 Theorem declarator_code_is_the_modelled_one : decl_sets_ok = true.
 Proof. exact decl_sets_ok_true. Qed.
 
+Print Assumptions alias_decodes.
 Print Assumptions declarator_code_is_the_modelled_one.
 Print Assumptions declarator_decodes.
 Print Assumptions parameter_decodes.
